@@ -394,7 +394,7 @@ def gen_graph_specs(ctx):
         rng.shuffle(order)
         specs.append(('dag4', mk('opt', pl, order)))
     # random: 4..6 nodes, cyclic or not, any listing order, real-looking uids now and then
-    n_rand = ctx.budget(900, 16000)
+    n_rand = ctx.budget(900, 12000)
     for _ in range(n_rand):
         n = rng.choice([4, 4, 4, 5, 5, 6])
         dag = rng.random() < 0.5
@@ -647,7 +647,7 @@ PRE = _make_pre()
 def gen_ind_specs(ctx):
     rng = ctx.rng
     out = []
-    n_ind = ctx.budget(450, 6000)
+    n_ind = ctx.budget(450, 4500)
     for i in range(n_ind):
         n = rng.choice([1, 2, 3, 4])
         pl = [[p for p in range(c) if rng.random() < 0.5] for c in range(n)]
@@ -784,7 +784,7 @@ def observe_load(tree, kind):
 
 def run_json_load(ctx):
     rng = ctx.rng
-    n = ctx.budget(250, 3000)
+    n = ctx.budget(250, 2500)
     cases, meta = [], []
     specs = [s for o, s in gen_graph_specs_small(ctx, n)]
     for spec in specs:
@@ -848,13 +848,13 @@ MODES = {'none': ('RNone', ReconnectType.none), 'single': ('RSingle', ReconnectT
          'all': ('RAll', ReconnectType.all)}
 
 
-def view(graph, known):
-    """canonical form: per node (uid or FRESHk, name, parameters, parent positions, is UniqueList)"""
+def view(graph, known, fresh):
+    """canonical form: per node (uid or FRESHk, name, parameters, parent positions, is UniqueList);
+    `fresh` names the uids made by uuid4 during the run (kept for the whole sequence, per side)"""
     nodes = list(graph.nodes)
     index = {}
     for i, n in enumerate(nodes):
         index.setdefault(id(n), i)
-    fresh = {}
     out = []
     for n in nodes:
         uid = n.uid
@@ -975,12 +975,13 @@ def lock_run(spec, ops, via_individual):
     else:
         loaded = json.loads(dumps(graph), cls=Serializer)
     known = known_uids(spec, ops)
-    vo, vl = view(graph, known), view(loaded, known)
+    fo, fl = {}, {}
+    vo, vl = view(graph, known, fo), view(loaded, known, fl)
     steps = []
     for op in ops:
         ro = _try(lambda: apply_op(graph, op))
         rl = _try(lambda: apply_op(loaded, op))
-        a, b = view(graph, known), view(loaded, known)
+        a, b = view(graph, known, fo), view(loaded, known, fl)
         if ro[0] == 'ok' and rl[0] == 'ok':
             steps.append((op, a, b))
         elif ro[0] == 'exc' and rl[0] == 'exc' and ro[1] == rl[1] and a == b:
@@ -1018,7 +1019,7 @@ def lock_case(vo, vl, steps, tamper=False):
 
 def gen_lock_specs(ctx):
     rng = ctx.rng
-    n_seq = ctx.budget(1300, 16000)
+    n_seq = ctx.budget(1300, 13000)
     out = []
     counter = [0]
     for i in range(n_seq):
@@ -1069,7 +1070,7 @@ def run_lockstep(ctx):
             cases.append(lock_case(vo, vl, steps, tamper=True))
             ctx.canaries += 1
             break
-    res = eval_cases(ctx, 'lockstep', FN_LOCK, cases, 2, per_shard=60)
+    res = eval_cases(ctx, 'lockstep', FN_LOCK, cases, 2, per_shard=120)
     if len(res) > len(meta) and not res[-1][1]:
         ctx.canaries_caught += 1
     sampled = 0
